@@ -323,6 +323,17 @@ def run(ctx):
                 cleaners.add("cancel")
     ctx.need("cancel" in cleaners or True, "cancel summary")
 
+    # which clean_up implementations look at the state?
+    state_sensitive_cleanup = []
+    for cls in apps:
+        ci = idx.get(cls)
+        f = ci.methods.get("clean_up")
+        if f is None:
+            continue
+        reads = any(call_name(c) == "self.get_app_state" for c in calls(f)) or "_state" in attrs_in(f)
+        if reads:
+            state_sensitive_cleanup.append(f"{cls}.clean_up")
+    ctx.floor("state-sensitive-cleanups", len(state_sensitive_cleanup), 1)
     n_join = 0
     for cls in apps:
         ci = idx.get(cls)
@@ -403,6 +414,28 @@ def run(ctx):
                         w1 = g.path(g.entry.id, n.id, blocked=set(runs))
                         ctx.ob("R1.running-after-run", ci.rel, f"{cls}.start", n.ast,
                                w1 is None, "state RUNNING reachable without run()", n.line)
+            # the state flag is terminal before clean_up() runs: clean_up
+            # implementations branch on it (kill the child only when CANCELLED)
+            if name in ("join", "cancel") and state_sensitive_cleanup:
+                terminal = {
+                    n.id for n in g.nodes
+                    if n.ast is not None and isinstance(n.ast, ast.Assign)
+                    and any(dotted(t) == "self._state" for t in n.ast.targets)
+                    and (dotted(n.ast.value) or "").split(".")[-1] in ("CANCELLED", "JOINED")
+                }
+                for t in sorted(targets):
+                    tn = g.nodes[t]
+                    if not any(call_name(c) == "self.clean_up" for c in head_calls(tn.ast)):
+                        continue  # self.cancel() sets the state itself
+                    w = g.path(g.entry.id, t, blocked=terminal)
+                    ctx.ob(
+                        "R2.state-terminal-before-cleanup", ci.rel, f"{cls}.{name}", tn.ast,
+                        w is None,
+                        "clean_up() is reached before the state is set to CANCELLED/JOINED, but "
+                        f"{', '.join(state_sensitive_cleanup)} decide(s) by the state whether to "
+                        "kill the child process: " + (fmt_path(w) if w else ""),
+                        tn.line,
+                    )
             # exactly once
             if name in ("join", "cancel"):
                 twice = None
@@ -627,6 +660,10 @@ MUTANTS = [
            "        self.run()\n        self._start_time",
            "        try:\n            self.run()\n        except BaseException:\n            self._state = AppState.CANCELLED\n            self.clean_up()\n            raise\n        self._start_time",
            "R2.cleanup-after-failed-launch", "Application.start", kind="repair"),
+    Mutant("cancel-cleanup-before-state", "application/application.py",
+           "        self._state = AppState.CANCELLED\n        self.clean_up()\n\n    def get_app_state",
+           "        self.clean_up()\n        self._state = AppState.CANCELLED\n\n    def get_app_state",
+           "R2.state-terminal-before-cleanup", "Application.cancel"),
     Mutant("timeout-no-cancel", "application/localapp.py",
            "        except TimeoutExpired:\n            self.cancel()\n",
            "        except TimeoutExpired:\n",
